@@ -56,6 +56,7 @@ type DB struct {
 	Preds  map[string]*Pred
 	Order  []string
 	Closed []string // interface types resolved by case split over the implementing types of the module
+	Transparent []string
 	UsedBy []string // package usedby P...: the only packages whose verification uses these contracts
 	Assume []string // raw text of every assume / trusted line (mechanical scan for the evidence)
 }
@@ -146,6 +147,11 @@ func (db *DB) loadFile(path string) error {
 			// package usedby P Q ...: see sym.(*Exec).usable
 			if fs := strings.Fields(rest); len(fs) > 1 && fs[0] == "usedby" {
 				db.UsedBy = append(db.UsedBy, fs[1:]...)
+			}
+			// package transparent P ...: while this package is verified, the struct types of the
+			// (non-module) packages P are modelled field by field, not as opaque values
+			if fs := strings.Fields(rest); len(fs) > 1 && fs[0] == "transparent" {
+				db.Transparent = append(db.Transparent, fs[1:]...)
 			}
 		case "pred":
 			k := strings.Index(rest, ":=")
@@ -282,8 +288,8 @@ func (db *DB) loadFile(path string) error {
 				}
 				c.Loop = n
 				c.Kind = fields[2]
-				if c.Kind != "invariant" && c.Kind != "decreases" {
-					return fail(fmt.Errorf("loop clause must be invariant or decreases"))
+				if c.Kind != "invariant" && c.Kind != "decreases" && c.Kind != "step" {
+					return fail(fmt.Errorf("loop clause must be invariant, decreases or step"))
 				}
 				idx := strings.Index(it.text, fields[2])
 				c.Text = strings.TrimSpace(it.text[idx+len(fields[2]):])
